@@ -25,13 +25,20 @@ Boom == PPred("boom", 0)
 Truthy == PPred("truthy", 0)
 CheckInt == PCheck(<<>>, <<"int">>, <<>>, FALSE, <<>>, FALSE, NoDef)
 
+\* Check(T['a'], ..): the conditions apply to the sub-target, the target is passed through
+CheckSubInt == PCheckS(<<A>>, "list", <<"int">>, <<>>, <<>>, FALSE, <<>>, FALSE, NoDef)
+CheckSubEqD == PCheckS(<<A>>, "list", <<>>, <<>>, <<VInt(1)>>, FALSE, <<>>, TRUE, VInt(9))
 \* atoms with a meaning in both modes
 AtomsAny == {PM(">", VInt(0)), PM("==", VInt(1)), PMTruthy, PM("<=", VInt(1)),
+             PMR("<", VInt(0)),                                   \* 0 < M
              PMSub(<<A>>, "==", VInt(1)), PMSubT(<<A>>), PTGet(<<A>>), PTGet(<<VStr("bb")>>),
-             Yes, No, Boom, CheckInt}
+             PMSub(<<VSlice(1)>>, "==", VStr("")),               \* M(T[1:]) == ''  (the documented idiom)
+             Yes, No, Boom, CheckInt, CheckSubInt, CheckSubEqD}
+\* in Auto mode a nested Match switches its sub-spec to match mode (with / without a default)
+AtomsAutoOnly == {PMatch(PType("int"), FALSE, NoDef), PMatch(PType("str"), TRUE, VInt(9))}
 \* under Match(..) also types, literals (and predicates decide by truthiness)
 AtomsMatchOnly == {PType("int"), PType("str"), PLit(VInt(1)), PLit(A), Truthy}
-Atoms(mode) == IF mode = "match" THEN AtomsAny \cup AtomsMatchOnly ELSE AtomsAny
+Atoms(mode) == IF mode = "match" THEN AtomsAny \cup AtomsMatchOnly ELSE AtomsAny \cup AtomsAutoOnly
 \* the small alphabets used below depth 1: passing / failing / failing with a non-Match
 \* GlomError / logging / raising a foreign error
 Small(mode) == {PM(">", VInt(0)), PTGet(<<VStr("bb")>>), Yes} \cup
@@ -51,7 +58,11 @@ BoolForms(c) ==      \* And / Or over the children c in every form
   {PAnd(c, "ctor", FALSE, NoDef), PAnd(c, "ctor", TRUE, D), POr(c, "ctor", FALSE, NoDef), POr(c, "ctor", TRUE, D)} \cup
   (IF OpLeft(c[1]) THEN {PAnd(c, "op", FALSE, NoDef), POr(c, "op", FALSE, NoDef)} ELSE {})
 NotForms(c) == {PNot(c, "ctor")} \cup (IF OpLeft(c) THEN {PNot(c, "op")} ELSE {})
-SwitchForms(cases) == {PSwitch(cases, FALSE, NoDef), PSwitch(cases, TRUE, D)}
+\* Switch([(key, val), ..]) and Switch({key: val, ..}) (key specs hashable and distinct)
+SwitchForms(cases) ==
+  {PSwitch(cases, FALSE, NoDef), PSwitch(cases, TRUE, D)} \cup
+  (IF \A i \in 1..Len(cases) : Hashable(cases[i][1]) /\ cases[i][1].op # "pred" /\ \A j \in 1..(i - 1) : cases[i][1] # cases[j][1]
+   THEN {PSwitchF(cases, "dict", FALSE, NoDef)} ELSE {})
 
 \* depth 1 over the full atom set
 D1(mode) ==
@@ -88,12 +99,23 @@ Trees(mode) == Atoms(mode) \cup D1(mode) \cup DoubleNot(mode) \cup (IF Depth >= 
 
 \* Check over all keyword subsets (equal_to and one_of exclude each other)
 Checks ==
-  {PCheck(ty, inst, vals[1], vals[2], validate, hasdef, IF hasdef THEN D ELSE NoDef) :
+  {PCheckS(sub, IF sub = <<>> THEN "list" ELSE "tuple", ty, inst, vals[1], vals[2], validate, hasdef, IF hasdef THEN D ELSE NoDef) :
+     sub \in {<<>>, <<A>>},
      ty \in {<<>>, <<"int">>, <<"int", "str">>},
      inst \in {<<>>, <<"int">>, <<"str", "dict">>},
      vals \in {<< <<>>, FALSE >>, << <<VInt(1)>>, FALSE >>, << <<VInt(1), A>>, TRUE >>, << <<A>>, TRUE >>},
      validate \in {<<>>, <<Yes>>, <<No>>, <<PPred("zero", 0)>>, <<Boom>>, <<Yes, No>>, <<Truthy, Yes>>},
      hasdef \in BOOLEAN}
+
+\* construction: Optional(key) / Required(key) over key patterns, and the table of other
+\* documented constructor refusals
+WrapKeys == {PLit(A), PLit(VInt(1)), PType("int"), PType("object"), PTuple(<<PLit(A), PLit(VInt(1))>>),
+             PTuple(<<PLit(A), PType("int")>>), PTuple(<<>>), PM(">", VInt(0)),
+             POr(<<PLit(A), PLit(VStr("b"))>>, "ctor", FALSE, NoDef), PRegex("ra", "match")}
+Ctors == {PWrap(kd, k) : kd \in {"optional", "required"}, k \in WrapKeys} \cup
+         {PWrap(k1, PWrap(k2, PLit(A))) : k1 \in {"optional", "required"}, k2 \in {"optional"}} \cup
+         {[op |-> "ctor", name |-> n] : n \in DOMAIN CtorTable}
+CtorPredict(p) == [ctor |-> IF p.op = "wrap" THEN Constructs(p) ELSE CtorTable[p.name]]
 
 VARIABLES mode, spec, target, pred, phase
 vars == <<mode, spec, target, pred, phase>>
@@ -103,21 +125,30 @@ ChooseSpec ==
   /\ phase = 0 /\ phase' = 1
   /\ \/ \E m \in {"auto", "match"} : mode' = m /\ \E p \in Trees(m) : spec' = Label(p, 1)
      \/ mode' = "auto" /\ spec' \in Checks
+     \/ mode' = "ctor" /\ spec' \in Ctors
   /\ UNCHANGED <<target, pred>>
 \* under Match(..) the tree is the pattern of a Match wrapper
 Root == IF mode = "match" THEN PMatch(spec, FALSE, VNone) ELSE spec
 ChooseTarget ==
   /\ phase = 1 /\ phase' = 2
-  /\ target' \in Targets
-  /\ pred' = Dumped(Ev("auto", target', Root))
+  /\ IF mode = "ctor" THEN target' = VNone /\ pred' = CtorPredict(spec)
+     ELSE target' \in Targets /\ pred' = Dumped(Ev("auto", target', Root))
   /\ UNCHANGED <<mode, spec>>
 Next == ChooseSpec \/ ChooseTarget
 
 \* ---- laws ---------------------------------------------------------------------------------
-Case == phase = 2
+Case == phase = 2 /\ mode # "ctor"
 O == Undumped(pred)
 Kid(i) == Ev(mode, target, spec.c[i])
-Fragment == InFragment("auto", Root) /\ StrsOK(target)
+Fragment == mode = "ctor" \/ (InFragment("auto", Root) /\ StrsOK(target))
+\* exactly one of Optional(k) and Required(k) can be built for a key pattern k (equality keys
+\* are required unless Optional, the others optional unless Required)
+CtorLaw == phase = 2 /\ mode = "ctor" /\ spec.op = "wrap" /\ spec.key.op # "wrap" =>
+             LET other == PWrap(IF spec.kind = "optional" THEN "required" ELSE "optional", spec.key) IN
+             (pred.ctor = "ok") # (Constructs(other) = "ok")
+\* a comparison Python itself refuses is not a rejection: its TypeError comes out unchanged
+Unorderable == Case /\ spec.op = "m" /\ (IF spec.refl THEN PyCmp(spec.cmp, spec.rhs, target) ELSE PyCmp(spec.cmp, target, spec.rhs)) = "E"
+                 => O.errs = {"TypeError"}
 \* the tree decides like the boolean expression it denotes (defaults: always passes)
 Decides == Case => LawDecides("auto", target, Root, O)
 \* And -> last child's result, Or -> first passing child's, Not / M -> the target, Switch -> the
@@ -126,19 +157,22 @@ Result == Case => LawResult("auto", target, Root, O)
 Errs == Case => LawErrs(O) /\ ~O.amb
 \* each honours its default: with a default no GlomError leaves the node
 \* (Switch: when no case matched)
+\* (Check: when its sub-spec can be evaluated)
 Defaults == Case /\ HasDef(spec) /\ (spec.op = "switch" => \A i \in 1..Len(spec.cases) : ~Holds(mode, target, spec.cases[i][1]))
+                 /\ (spec.op = "check" => TGet(target, spec.sub, 1).ok)
               => ~Caught(O)
 \* rejections by the combinators are MatchErrors, Check's are CheckErrors; child errors
 \* propagate as themselves
 Rejects == Case /\ ~O.ok /\ Clean(O) =>
   /\ (spec.op \in {"not", "m", "mtruthy"} => O.errs = {"MatchError"})
   /\ (spec.op = "switch" /\ (\A i \in 1..Len(spec.cases) : ~Holds(mode, target, spec.cases[i][1])) => O.errs = {"MatchError"})
-  /\ (spec.op = "check" => O.errs = {"CheckError"})
+  /\ (spec.op = "check" => O.errs = (IF TGet(target, spec.sub, 1).ok THEN {"CheckError"} ELSE {"PathAccessError"}))
   /\ (spec.op = "or" => "MatchError" \in O.errs /\
                         O.errs \subseteq {"MatchError"} \cup UNION {Kid(i).errs : i \in 1..Len(spec.c)})
   /\ (spec.op = "and" => \E i \in 1..Len(spec.c) : ~Kid(i).ok /\ O.errs = Kid(i).errs /\ \A j \in 1..(i - 1) : Kid(j).ok)
 \* M comparisons, Not, Check and Regex hand back the target object itself
-Passthrough == Case /\ O.ok /\ spec.op \in {"m", "mtruthy", "msub", "msubt", "not"} => O.same /\ O.v = target
+Passthrough == /\ (Case /\ O.ok /\ spec.op \in {"m", "mtruthy", "msub", "msubt", "not"} => O.same /\ O.v = target)
+               /\ (Case /\ O.ok /\ spec.op = "check" /\ Core(mode, target, spec) => O.same /\ O.v = target)
 \* short-circuit, on the call log of the named predicates (ids are positions, all distinct)
 ShortCircuit == Case /\ ~Foreign(O) =>
   /\ (spec.op = "or" /\ (\E i \in 1..Len(spec.c) : Kid(i).ok) =>
